@@ -23,3 +23,18 @@ Print Assumptions C16_state_actions_mirror_characterised.
 Theorem C16_state_actions_mirror_refuted : state_actions_mirror_refuted_stmt.
 Proof. exact state_actions_mirror_refuted. Qed.
 Print Assumptions C16_state_actions_mirror_refuted.
+
+(* C16 for the graph and table the construction builds (theories/C01/Pipeline*.v): for every grammar and
+   every oracle of hash orders the result is COHERENT — every state reachable from the start state, every
+   closed state the LR(1) closure of its core state, shift/goto targets = the graph's edges, and the
+   views derived from the final cells (state_actions with the repaired clearing of erased cells) agree
+   with the cells *)
+From GV Require Import C01.Pipeline C01.PipelineSpec C01.PipelineEdges C01.PipelineC16.
+
+Theorem C16_construction_coherent : construction_coherent_stmt.
+Proof. exact construction_coherent. Qed.
+Print Assumptions C16_construction_coherent.
+
+Theorem C16_pager_mirror_all_reachable : pager_mirror_all_reachable_stmt.
+Proof. exact pager_mirror_all_reachable. Qed.
+Print Assumptions C16_pager_mirror_all_reachable.
